@@ -12,7 +12,6 @@ VARIABLES m, hh, last, steps
 vars == <<m, hh, last, steps>>
 
 (* ---------------------------------------------------------------------------------------- *)
-NoEv == Ev("Reset", "", "", 0, 0, 0, 0, 0, "")
 Init == \E cfg \in Cfgs :
           /\ m = Finish(MInit(cfg))
           /\ hh = HInit(cfg, Finish(MInit(cfg)).o)
